@@ -20,6 +20,8 @@ LEVEL_TEXT = ('Bounded-exhaustive: every DAG of the family under every valid opt
               'cache bits + CRC). A self-consistent but non-conforming writer/reader pair cannot pass.')
 LEVEL_NOTE = 'trusted: mc/ref/boc.py strict decoder (pinned: empty-cell BoC bytes, 301-cell main-net block written by a TON node with idx+cache+crc)'
 TECHNIQUE = 'small-scope exhaustive enumeration of DAGs x options, emitted bytes decoded by an independent strict reference decoder'
+RULE += ' Object-graph cases (every shape of the family that has references): (i) the same DAG built so that equal sub-cells are DISTINCT Python objects, all 6 option sets; (ii) serialise histories on ONE object graph: for every ordered pair of nodes (i, j) to_boc(i), to_boc(j), to_boc(i) under 4 option pairs - each result must be the conforming serialisation of that sub-DAG whatever was serialised before (also for the distinct-object build).'
+LEVEL_TEXT += ' Additionally every ordered pair of sub-DAG serialisations on one object graph and the distinct-object build of every shape.'
 ASSUMPTIONS = ['the reference decoder is the arbiter of the wire format; it accepts the node-written main-net block fixture']
 NOT_ASSERTED = ['minimality of the chosen widths (the format allows wider fields)', 'the value of the per-cell cache flag bit']
 
